@@ -53,7 +53,9 @@ func snapHeader(h *head.Header) *hdrSnap {
 	}
 	for _, l := range h.Links {
 		if l != nil {
-			s.Links = append(s.Links, [2]string{l.Key.String(), l.URL})
+			// the whole entry: a link is what was signed, not only its key and address
+			b, _ := json.Marshal(l)
+			s.Links = append(s.Links, [2]string{l.Key.String(), string(b)})
 		}
 	}
 	s.Tags = append(s.Tags, h.Tags...)
@@ -510,7 +512,29 @@ func headerMutate(env *gobl.Envelope, op Op) (note string) {
 		i := int(op.I) % len(h.Stamps)
 		h.Stamps = append(append([]*head.Stamp{}, h.Stamps[:i]...), h.Stamps[i+1:]...)
 	case "link":
-		h.AddLink(&head.Link{Key: cbc.Key(op.S), URL: op.S2})
+		l := &head.Link{Key: cbc.Key(op.S), URL: op.S2}
+		if op.I%2 == 1 {
+			l.Title = "Document " + op.S
+		}
+		if op.I%4 >= 2 {
+			l.MIME = "application/pdf"
+		}
+		h.AddLink(l)
+	case "link-detail":
+		// same key, same address, another title or media type
+		if len(h.Links) == 0 {
+			return "noop"
+		}
+		i := int(op.I) % len(h.Links)
+		nl := *h.Links[i]
+		if op.I%2 == 0 {
+			nl.Title = "Changed " + nl.Title
+		} else if nl.MIME == "text/html" {
+			nl.MIME = "application/xml"
+		} else {
+			nl.MIME = "text/html"
+		}
+		h.Links[i] = &nl
 	case "link-dup":
 		if len(h.Links) == 0 {
 			return "noop"
@@ -580,7 +604,7 @@ func headerMutate(env *gobl.Envelope, op Op) (note string) {
 	return ""
 }
 
-var headerOpKinds = []string{"stamp", "stamp-dup", "stamp-alter", "stamp-rm", "link", "link-dup", "link-alter", "link-rm", "tag", "tag-rm", "meta", "meta-rm", "notes", "uuid"}
+var headerOpKinds = []string{"stamp", "stamp-dup", "stamp-alter", "stamp-rm", "link", "link-dup", "link-alter", "link-detail", "link-rm", "tag", "tag-rm", "meta", "meta-rm", "notes", "uuid"}
 
 func isHeaderOp(k string) bool {
 	for _, h := range headerOpKinds {
